@@ -300,6 +300,7 @@ impl<'a> AliasLexer<'a> {
         if CARDINALS_TRIE.contains_prefix(buffer.as_str()) {
             self.advance();
             loop {
+                #[cfg(feature = "verif")] crate::verif::tick(500);
                 let mut tmp = buffer.clone(); 
                 tmp.push(self.cur_as_ipa());
                 if CARDINALS_TRIE.contains_prefix(tmp.as_str()) {
@@ -507,6 +508,7 @@ impl<'a> AliasLexer<'a> {
         let mut buffer = String::with_capacity(1);
 
         while self.has_more_chars() {
+            #[cfg(feature = "verif")] crate::verif::tick(501);
             if Self::is_valid_char(&self.curr_char()) {
                 buffer.push(self.curr_char());
                 self.advance();
@@ -567,6 +569,7 @@ impl<'a> AliasLexer<'a> {
     pub(crate) fn get_line(&mut self) -> Result<Vec<AliasToken>, AliasSyntaxError> {
         let mut token_list: Vec<AliasToken> =  Vec::new();
         loop {
+            #[cfg(feature = "verif")] crate::verif::tick(502);
             let next_token = self.get_next_token()?;
             if let AliasTokenKind::Eol = next_token.kind {
                 token_list.push(next_token);
